@@ -21,10 +21,15 @@ type cfg struct {
 	n, t   int
 	family string // small | p32 | p63 | mixed
 	secret string // ternary | ones | monomial
+	coef   bool   // parameters with NTTFlag=false (coefficient-domain ciphertexts in the downstream runs)
 }
 
 func (k cfg) name() string {
-	return fmt.Sprintf("%s/%s/%s/%s/N=%d/t=%d", k.kind, k.chain.Name, k.family, k.secret, k.n, k.t)
+	s := fmt.Sprintf("%s/%s/%s/%s/N=%d/t=%d", k.kind, k.chain.Name, k.family, k.secret, k.n, k.t)
+	if k.coef {
+		s += "/ntt=false"
+	}
+	return s
 }
 
 var families = []string{"small", "p32", "p63", "mixed"}
@@ -35,23 +40,31 @@ func catalogue(tier string) []cfg {
 		maxN = 6
 	}
 	var r []cfg
-	chains := []mp.Chain{mp.ChainMid, mp.ChainTiny, mp.ChainBig}
+	chains := []mp.Chain{mp.ChainMid, mp.ChainTiny, mp.ChainBig, mp.ChainMidCI, mp.ChainNoP}
 	for ci, ch := range chains {
 		for fi, fam := range families {
-			for n := 1; n <= maxN; n++ {
+			top := maxN
+			if tier == "quick" && (ch.Name == "mid" || ch.Name == "tiny" || ch.Name == "midci") {
+				top = 6 // promoted from thorough: N = 6 on the three main chains
+			}
+			if tier == "thorough" && ch.Name == "mid" && fam == "mixed" {
+				top = 7 // one step beyond the property's N <= 6
+			}
+			for n := 1; n <= top; n++ {
 				for t := 1; t <= n; t++ {
 					// every (N,t) on every chain x family; the secret kind rotates so that each kind meets each chain and family
 					sec := []string{"ternary", "ones", "monomial"}[(ci+fi+n+t)%3]
-					if tier == "quick" && ch.Name == "big" && fam != "p63" && fam != "mixed" {
+					if tier == "quick" && (ch.Name == "big" || ch.Name == "nop") && fam != "p63" && fam != "mixed" {
 						continue
 					}
-					r = append(r, cfg{kind: "combine", chain: ch, n: n, t: t, family: fam, secret: sec})
+					// coefficient-domain parameters on a third of the configurations
+					r = append(r, cfg{kind: "combine", chain: ch, n: n, t: t, family: fam, secret: sec, coef: (ci+n+2*t)%3 == 0})
 				}
 			}
 		}
 	}
 	// setup lattice: all aggregation orders of the N received shares for N <= 4, every receiver
-	for _, ch := range []mp.Chain{mp.ChainMid, mp.ChainTiny} {
+	for _, ch := range []mp.Chain{mp.ChainMid, mp.ChainTiny, mp.ChainMidCI} {
 		for _, fam := range families {
 			for n := 1; n <= 4; n++ {
 				for _, t := range []int{1, (n + 1) / 2, n} {
@@ -112,10 +125,10 @@ func main() {
 			"downstream decryption: noise bound parties x floor(6*sigma_ks+0.5) + floor(6*sigma+0.5) from the declared truncated Gaussians",
 		},
 		Scenarios:      scenarios,
-		QuickBudget:    140 * time.Second,
-		ThoroughBudget: 20 * time.Minute,
+		QuickBudget:    150 * time.Second,
+		ThoroughBudget: 25 * time.Minute,
 		Expect: func(tier string) []string {
-			e := []string{"kind=setup", "kind=combine", "kind=collide", "chain=mid", "chain=tiny", "chain=big",
+			e := []string{"kind=setup", "kind=combine", "kind=collide", "chain=mid", "chain=tiny", "chain=big", "chain=midci", "chain=nop", "downstream=collective-public-key", "downstream-domain=ntt=true", "downstream-domain=ntt=false", "thresholdizer-history=after-another-sharing", "merge-variant=stream-first-1byte", "merge-variant=stream-second-split5", "N=6",
 				"family=small", "family=p32", "family=p63", "family=mixed", "secret=ternary", "secret=ones", "secret=monomial",
 				"actives=exactly-t", "actives=fewer-than-t", "actives=superset", "refused=fewer-than-t", "downstream=decrypts",
 				"point>q=true", "point>q=false", "point>=2^63=true", "others-order=index", "others-order=reversed", "others-order=own-omitted",
